@@ -1071,7 +1071,7 @@ bool dispatch_api(State& st, const std::string& op, const json& a, json& ret)
         json r;
         if (st.tracks.count(h))
         {
-            auto& t = st.T(h);
+            auto& t = st.tracks.at(h);
             dj::track copy{t};
             dj::track other{t};
             other = copy;
@@ -1082,7 +1082,8 @@ bool dispatch_api(State& st, const std::string& op, const json& a, json& ret)
         }
         else
         {
-            auto& c = st.C(h);
+            if (!st.crates.count(h)) throw harness_error("harness: no handle " + h);
+            auto& c = st.crates.at(h);
             dj::crate copy{c};
             dj::crate other{c};
             other = copy;
@@ -1115,6 +1116,12 @@ bool dispatch_api(State& st, const std::string& op, const json& a, json& ret)
         ret["total_changes"] = shim_total_changes();
         ret["txn"] = shim_any_in_txn();
         ret["conns"] = (int)shim_connections().size();
+        return true;
+    }
+    if (op == "set_guard")
+    {
+        st.guard = a.value("on", true);
+        ret = true;
         return true;
     }
     if (op == "set_budget")
